@@ -301,7 +301,12 @@ def main(fd, verbose=0):
                     if verbose:
                         util.debug(f"[ResourceTracker] unlink {name}")
                 except Exception as e:
-                    warnings.warn(f"resource_tracker: {name}: {e!r}")
+                    try:
+                        warnings.warn(f"resource_tracker: {name}: {e!r}")
+                    except Exception:
+                        # warnings can be turned into errors (-W error): keep
+                        # cleaning up the remaining resources.
+                        pass
 
         for rtype, rtype_registry in registry.items():
             if rtype == "folder":
